@@ -99,6 +99,80 @@ theorem slice_step_one {α} (l : List α) (start stop : Int) :
   have := hall k (List.mem_range.mp hk)
   omega
 
+/-- negative step: the selected positions are `s, s+step, …` (descending), all `> e`, all inside the sequence,
+none skipped, and the next one would reach `e` — with `s`, `e` counted from the end when negative and
+clamped to `[−1, len−1]` -/
+theorem slice_neg (len : Nat) (start stop step : Int) (hs : step < 0) :
+    let s := adjust len start (-1) (len - 1)
+    let e := adjust len stop (-1) (len - 1)
+    ∃ cnt : Nat, sliceIndices len start stop step = (List.range cnt).map (fun (k : Nat) => (s + (k : Int) * step).toNat) ∧
+      (∀ k : Nat, k < cnt → e < s + (k : Int) * step ∧ 0 ≤ s + (k : Int) * step ∧ s + (k : Int) * step < len) ∧
+      (s + (cnt : Int) * step ≤ e) := by
+  intro s e
+  have hsn : ¬ (step > 0) := by omega
+  have hs1 : s ≤ len - 1 := by simp only [s, adjust]; split <;> split <;> (try split) <;> omega
+  have he : -1 ≤ e := by simp only [e, adjust]; split <;> split <;> (try split) <;> omega
+  by_cases hse : s ≤ e
+  · refine ⟨0, ?_, by intro k hk; omega, by simpa using hse⟩
+    have : adjust len start (-1) (len - 1) ≤ adjust len stop (-1) (len - 1) := hse
+    simp only [adjust] at this
+    simp only [sliceIndices, hsn, if_false, this, if_true]
+    rfl
+  · have hlt : e < s := by omega
+    refine ⟨((s - e - 1) / (-step) + 1).toNat, ?_, ?_, ?_⟩
+    · simp only [sliceIndices, hsn, if_false]
+      have : ¬ (adjust len start (-1) (len - 1) ≤ adjust len stop (-1) (len - 1)) := hse
+      simp only [adjust] at this
+      simp only [this, if_false]
+      rfl
+    · intro k hk
+      have hq : 0 ≤ (s - e - 1) / (-step) := Int.ediv_nonneg (by omega) (by omega)
+      have hk' : (k : Int) ≤ (s - e - 1) / (-step) := by omega
+      have h1 : (s - e - 1) / (-step) * (-step) ≤ s - e - 1 := Int.ediv_mul_le _ (by omega)
+      have h2 : (k : Int) * (-step) ≤ (s - e - 1) / (-step) * (-step) := Int.mul_le_mul_of_nonneg_right hk' (by omega)
+      have h3 : 0 ≤ (k : Int) * (-step) := Int.mul_nonneg (by omega) (by omega)
+      have h4 : (k : Int) * (-step) = -((k : Int) * step) := by rw [Int.mul_neg]
+      omega
+    · have hq : 0 ≤ (s - e - 1) / (-step) := Int.ediv_nonneg (by omega) (by omega)
+      have h1 : s - e - 1 < ((s - e - 1) / (-step) + 1) * (-step) := Int.lt_ediv_add_one_mul_self _ (by omega)
+      have : ((((s - e - 1) / (-step) + 1).toNat : Nat) : Int) = (s - e - 1) / (-step) + 1 := by omega
+      rw [this]
+      have h4 : ((s - e - 1) / (-step) + 1) * (-step) = -(((s - e - 1) / (-step) + 1) * step) := by rw [Int.mul_neg]
+      omega
+
+/-- every position a slice selects — whatever start, stop and non-zero step — lies inside the sequence, so
+`pySlice` never drops a selected position -/
+theorem slice_in_range (len : Nat) (start stop step : Int) (hne : step ≠ 0) :
+    ∀ i ∈ sliceIndices len start stop step, i < len := by
+  intro i hi
+  by_cases hs : 0 < step
+  · obtain ⟨cnt, heq, hall, _⟩ := slice_pos len start stop step hs
+    rw [heq, List.mem_map] at hi
+    obtain ⟨k, hk, rfl⟩ := hi
+    have := hall k (List.mem_range.mp hk)
+    omega
+  · obtain ⟨cnt, heq, hall, _⟩ := slice_neg len start stop step (by omega)
+    rw [heq, List.mem_map] at hi
+    obtain ⟨k, hk, rfl⟩ := hi
+    have := hall k (List.mem_range.mp hk)
+    omega
+
+/-- the slice has exactly as many elements as positions were selected -/
+theorem slice_length {α} (l : List α) (start stop step : Int) (hne : step ≠ 0) :
+    (pySlice l start stop step).length = (sliceIndices l.length start stop step).length := by
+  unfold pySlice
+  have h := slice_in_range l.length start stop step hne
+  generalize sliceIndices l.length start stop step = idx at h
+  induction idx with
+  | nil => rfl
+  | cons i is ih =>
+    have hi : i < l.length := h i (by simp)
+    simp [List.getElem?_eq_getElem hi, ih (fun j hj => h j (by simp [hj]))]
+
+/-- reversing: `[::-1]` selects `len−1, …, 0` -/
+example : sliceIndices 4 (-1) (-5) (-1) = [3, 2, 1, 0] ∧ sliceIndices 5 (-1) (-6) (-2) = [4, 2, 0] ∧
+    sliceIndices 3 (-7) 9 2 = [0, 2] ∧ sliceIndices 3 1 (-9) (-1) = [1, 0] := by decide +kernel
+
 /-- a zero step is rejected before slicing (value exception) -/
 theorem slice_zero_step (sp : Span) (xs : List Arg) (a b : Int) :
     bSlice sp [.strict (.list xs), .strict (.int a), .strict (.int b), .strict (.int 0)] =
